@@ -80,10 +80,10 @@ def congruence(n, defs, depth=0):
     return TOPC
 
 
-KEEP_CALLS = {"bytes_of_image", "bytes_of_type"}
+KEEP_CALLS = {"bytes_of_image", "bytes_of_type", "aligned_bytes_of_image"}
 
 
-def inline_expr(prog, f, n, depth=0, env=None, defs=None):
+def inline_expr(prog, f, n, depth=0, env=None, defs=None, ptrs=False):
     """A copy of expression n in which single-definition locals are replaced
     by their defining expressions and calls to small repository functions
     (exactly one return statement) are replaced by the returned expression with
@@ -98,13 +98,13 @@ def inline_expr(prog, f, n, depth=0, env=None, defs=None):
     if k == "var":
         if n["id"] in env:
             return env[n["id"]]
-        if "p" not in n and n["id"] in defs and not n.get("r") and not n.get("pd"):
-            return inline_expr(prog, f, defs[n["id"]], depth + 1, env, defs)
+        if "p" not in n and n["id"] in defs and ((not n.get("r") and not n.get("pd")) or (ptrs and n.get("pd"))):
+            return inline_expr(prog, f, defs[n["id"]], depth + 1, env, defs, ptrs)
         return n
     if k == "ref":
         tgt = f.resolve_ref(n)
         if tgt is not None and tgt.get("k") not in ("decl", "ret"):
-            return inline_expr(prog, f, tgt, depth + 1, env, defs)
+            return inline_expr(prog, f, tgt, depth + 1, env, defs, ptrs)
         return n
     if k == "call" and n.get("fn") and n["fn"] not in KEEP_CALLS:
         g = prog.resolve(n["fn"], f)
@@ -113,13 +113,13 @@ def inline_expr(prog, f, n, depth=0, env=None, defs=None):
             writes_mem = any(lv.get("k") != "var" for b, i, s in g.all_stmts()
                              for lv, op, rhs, w in ir.writes_of(s))
             if len(rets) == 1 and not writes_mem and len(g.blocks) <= 6:
-                args = [inline_expr(prog, f, a, depth + 1, env, defs) for a in n.get("args", [])]
+                args = [inline_expr(prog, f, a, depth + 1, env, defs, ptrs) for a in n.get("args", [])]
                 genv = {p["id"]: args[i] for i, p in enumerate(g.params) if i < len(args)}
-                return inline_expr(prog, g, rets[0]["e"], depth + 1, genv, single_defs(g))
+                return inline_expr(prog, g, rets[0]["e"], depth + 1, genv, single_defs(g), ptrs)
     out = dict(n)
     for key in ("l", "r", "e", "b", "i", "c", "t", "f"):
         if isinstance(n.get(key), dict):
-            out[key] = inline_expr(prog, f, n[key], depth + 1, env, defs)
+            out[key] = inline_expr(prog, f, n[key], depth + 1, env, defs, ptrs)
     if "args" in n:
-        out["args"] = [inline_expr(prog, f, a, depth + 1, env, defs) for a in n["args"]]
+        out["args"] = [inline_expr(prog, f, a, depth + 1, env, defs, ptrs) for a in n["args"]]
     return out
